@@ -35,6 +35,10 @@ structure F64 where
   trunc : Int
   deriving DecidableEq, Repr
 def int64 (x : F64) : Int := x.trunc
+/-- `v >= c` for an integer constant `c ≥ 0`, `v <= c` for an integer constant `c ≤ 0`: decided by the whole-number part (truncation
+    toward zero) — exact for constants of that sign -/
+def f64GeNonneg (v : F64) (c : Int) : Bool := decide (v.trunc ≥ c)
+def f64LeNonpos (v : F64) (c : Int) : Bool := decide (v.trunc ≤ c)
 
 /-! ## errors: `nil` is `none`; an error is represented by its format string (arguments are not part of the decision logic) -/
 abbrev Err := Option Str
